@@ -2,7 +2,7 @@
     [nat], [byte] stay the extracted inductive types. Monolithic: one file [jaqmodel.ml]. *)
 From Coq Require Import Extraction ExtrOcamlBasic.
 From JaqV Require Import Base.F64 Base.Bytes Val.Num Val.Val Val.Utf8 Val.Err Val.Arith Val.Index
-  Base.Stream Core.Syntax Core.Compile Core.Natives Core.Run Json.Write Json.Read Std.Natives Core.Eval Cli.Main Cli.Args Cli.Modules Parse.PrecClimb.
+  Base.Stream Core.Syntax Core.Compile Core.Natives Core.Run Json.Write Json.Read Std.Natives Core.Eval Cli.Main Cli.Args Cli.Modules Parse.PrecClimb Parse.Lex.
 Extraction Language OCaml.
 Extraction "jaqmodel.ml"
   F64.of_Z F64.fadd F64.float_cmp Bytes.bz Bytes.zb Bytes.Z_to_dec
@@ -12,4 +12,4 @@ Extraction "jaqmodel.ml"
   Utf8.chunks Utf8.encode1 Utf8.to_lossy Utf8.valid_utf8
   Arith.math_run Arith.cmp_run Arith.vneg
   Eval.compile_prelude Eval.compile_main Eval.run_take Write.to_json Write.write_val Write.display Write.format_finite
-  Index.vindex Index.vrange Read.parse_single Read.parse_many Main.run_cli Main.exit_code Args.parse_cli Args.opts_of PrecClimb.parse_chain Modules.load.
+  Index.vindex Index.vrange Read.parse_single Read.parse_many Main.run_cli Main.exit_code Args.parse_cli Args.opts_of PrecClimb.parse_chain Modules.load Lex.lex.
